@@ -139,6 +139,23 @@ var opcodes = map[string]wasm.Opcode{
 
 	"i32.wrap_i64": wasm.OpcodeI32WrapI64, "i64.extend_i32_s": wasm.OpcodeI64ExtendI32S,
 	"i64.extend_i32_u": wasm.OpcodeI64ExtendI32U, "i64.extend32_s": wasm.OpcodeI64Extend32S,
+
+	// the narrow sign extensions (sign-extension feature, part of CoreFeaturesV2): extended model `c01frontx`
+	"i32.extend8_s": wasm.OpcodeI32Extend8S, "i32.extend16_s": wasm.OpcodeI32Extend16S,
+	"i64.extend8_s": wasm.OpcodeI64Extend8S, "i64.extend16_s": wasm.OpcodeI64Extend16S,
+}
+
+// narrowExt: the instructions only the extended model (`Wz.Model.FrontendSLX`, topic `c01frontx`) has
+var narrowExt = map[string]bool{"i32.extend8_s": true, "i32.extend16_s": true, "i64.extend8_s": true, "i64.extend16_s": true}
+
+// hasNarrow: the body (live or dead code) contains one of the narrow sign extensions
+func (f *fnDef) hasNarrow() bool {
+	for _, i := range f.body {
+		if narrowExt[i.name] {
+			return true
+		}
+	}
+	return false
 }
 
 // checkOpcodeTable cross-checks the table above with wazero's own instruction-name table: a typo in either would
@@ -320,7 +337,14 @@ func (g *gen) constVal(t vt) uint64 {
 	case 8:
 		v = 64
 	case 9:
-		v = uint64(g.r.Intn(256))
+		if g.r.Intn(2) == 0 {
+			v = []uint64{0x7f, 0x80, 0xff, 0x100, 0x7fff, 0x8000, 0xffff, 0x10000}[g.r.Intn(8)]
+			if g.r.Intn(4) == 0 {
+				v |= g.r.Uint64() << 16 // junk above the low 16 bits
+			}
+		} else {
+			v = uint64(g.r.Intn(256))
+		}
 	case 10:
 		v = uint64(-int64(g.r.Intn(200) + 1))
 	case 11:
@@ -391,9 +415,9 @@ func (g *gen) need1(t vt) {
 
 func (g *gen) step() {
 	r := g.r
-	k := r.Intn(102)
+	k := r.Intn(110)
 	if k < 24 && len(g.st) >= 6 && r.Intn(4) > 0 {
-		k = 36 + r.Intn(66) // a deep stack: rather consume than push
+		k = 36 + r.Intn(74) // a deep stack: rather consume than push
 	}
 	switch {
 	case k < 12:
@@ -469,18 +493,26 @@ func (g *gen) step() {
 		t := g.pickTy()
 		g.need1(t)
 		g.emit(t.String()+"."+cntOps[r.Intn(len(cntOps))], 0)
-	case k < 91: // conversions
+	case k < 99: // conversions (8 of them, each with the weight 2 of 110)
 		var name string
 		var from, to vt
-		switch r.Intn(4) {
+		switch r.Intn(8) {
 		case 0:
 			name, from, to = "i32.wrap_i64", tI64, tI32
 		case 1:
 			name, from, to = "i64.extend_i32_s", tI32, tI64
 		case 2:
 			name, from, to = "i64.extend_i32_u", tI32, tI64
-		default:
+		case 3:
 			name, from, to = "i64.extend32_s", tI64, tI64
+		case 4:
+			name, from, to = "i32.extend8_s", tI32, tI32
+		case 5:
+			name, from, to = "i32.extend16_s", tI32, tI32
+		case 6:
+			name, from, to = "i64.extend8_s", tI64, tI64
+		default:
+			name, from, to = "i64.extend16_s", tI64, tI64
 		}
 		g.need1(from)
 		g.emit(name, 0)
@@ -806,6 +838,29 @@ var handWritten = []string{
 	"i64 i64 - local.get:0 i64.const:0 i64.div_u return i64.const:1",
 	"i32 - i32 local.get:0 local.set:1 return local.get:1 drop",
 	"- i64 i32,i64 local.get:1 return",
+	// narrow sign extensions (extended model)
+	"i32 i32 - local.get:0 i32.extend8_s",
+	"i32 i32 - local.get:0 i32.extend16_s",
+	"i64 i64 - local.get:0 i64.extend8_s",
+	"i64 i64 - local.get:0 i64.extend16_s",
+	"i32 i32 - local.get:0 i32.extend8_s i32.extend16_s",
+	"i32 i32 - local.get:0 i32.extend16_s i32.extend8_s",
+	"i64 i64 - local.get:0 i64.extend8_s i64.extend16_s i64.extend32_s",
+	"i64 i64 - local.get:0 i64.extend32_s i64.extend16_s i64.extend8_s",
+	"i64 i64 - local.get:0 i32.wrap_i64 i32.extend8_s i64.extend_i32_u",
+	"i64 i64 - local.get:0 i32.wrap_i64 i32.extend16_s i64.extend_i32_s",
+	"i32,i32 i32 - local.get:0 i32.extend8_s local.get:1 i32.extend16_s i32.div_s",
+	"i64,i64 i64 - local.get:0 i64.extend8_s local.get:1 i64.extend16_s i64.rem_s",
+	"- i32 i32 local.get:0 i32.extend8_s",
+	"- i64 i64 local.get:0 i64.extend16_s",
+	"i32 i32 i32 local.get:0 i32.extend8_s local.tee:1 local.get:1 i32.add",
+	"i32 i32 - local.get:0 i32.extend8_s drop local.get:0",
+	"i32 i32 - local.get:0 i32.extend8_s return",
+	"i32 i32 - local.get:0 return i32.extend8_s",
+	"i64 i64 - local.get:0 return i64.extend16_s i64.extend8_s",
+	"i32 i32 - local.get:0 i32.extend16_s return local.get:0 i32.extend8_s",
+	"i64 i32 - local.get:0 i64.extend8_s i64.eqz",
+	"i64,i64 i64 - local.get:0 i64.extend8_s local.get:1 i64.extend8_s local.get:0 i64.extend16_s i64.eqz select",
 	// the same value used several times; values defined and never used
 	"i32 i32 - local.get:0 local.get:0 i32.mul local.get:0 i32.add",
 	"i32,i64 i32 - local.get:1 i64.popcnt drop i32.const:3 i32.const:4 i32.add drop local.get:0",
@@ -836,6 +891,19 @@ func systematic() []string {
 		for _, op := range cntOps {
 			out = append(out, fmt.Sprintf("%s %s - local.get:0 %s.%s", t, t, t, op))
 			out = append(out, fmt.Sprintf("- %s - %s.const:0 %s.%s", t, t, t, op))
+		}
+		// the narrow sign extensions on boundary constants
+		consts := []string{"0", "1", "7f", "80", "ff", "100", "17f", "180", "7fff", "8000", "ffff", "10000", "17fff", "18000",
+			"7fffffff", "80000000", "ffffffff", "ffffff7f", "ffffff80", "ffff7fff", "ffff8000"}
+		if t == "i64" {
+			consts = append(consts, "100000000", "7fffffffffffffff", "8000000000000000", "ffffffffffffffff",
+				"ffffffffffffff7f", "ffffffffffffff80", "ffffffffffff7fff", "ffffffffffff8000", "123456789abcde7f", "fedcba9876548000",
+				"8000000000000080", "8000000000008000", "ffffffff0000007f", "ffffffff00007fff")
+		}
+		for _, op := range []string{"extend8_s", "extend16_s"} {
+			for _, c := range consts {
+				out = append(out, fmt.Sprintf("- %s - %s.const:%s %s.%s", t, t, c, t, op))
+			}
 		}
 	}
 	return out
